@@ -2,6 +2,7 @@ import FxVerif.Proofs.C12
 import FxVerif.Proofs.C12Handler
 import FxVerif.Proofs.C12Sig
 import FxVerif.Proofs.C12Env
+import FxVerif.Model.C12Genesis
 /-!
 # C12 — a confirmation is stored only with the oracle's signature over the exact object
 
@@ -1066,6 +1067,87 @@ theorem built_oracle_set_checkpoint_is_contract_digest (tron : Bool) (o : Oracle
 
 end Provenance
 
+/-! ## 14. (round 4) what a genesis export / import does to stored confirmations -/
+
+section GenesisRoundTrip
+open FxVerif.Gen.C12Env
+
+/-- the exported state (fields of `GenesisState`, the calls of `ExportGenesis`, the reads of `InitGenesis`, all regenerated)
+carries oracle-set confirmations collected per EXPORTED oracle set and batch confirmations collected per EXPORTED batch — and
+nothing about bridge calls: neither the outgoing bridge calls nor their confirmations are part of a genesis -/
+theorem genesis_carries_no_bridge_call_state :
+    exportEntry "oracleSet" = some ("OracleSetConfirms", "k.IterateOracleSetConfirmByNonce(vs.Nonce)", "state.OracleSets") ∧
+    exportEntry "batch" = some ("BatchConfirms",
+      "k.IterateBatchConfirmByNonceAndTokenContract(batch.BatchNonce, batch.TokenContract)", "state.Batches") ∧
+    exportEntry "bridgeCall" = none ∧
+    genesisStateFields = ["Params", "LastObservedEventNonce", "LastObservedBlockHeight", "Oracles", "OracleSets", "BridgeTokens",
+      "UnbatchedTransfers", "Batches", "OracleSetConfirms", "BatchConfirms", "Attestations", "ProposalOracle",
+      "LastObservedOracleSet", "LastSlashedBatchBlock", "LastSlashedOracleSetNonce"] ∧
+    (genesisStateFields.all fun f => genesisImports.contains f && (genesisExports.map (·.1)).contains f) = true := by decide
+
+private theorem exportsConfirm_true (st : HState) (e : Entry) (h : exportsConfirm st e = true) :
+    (e.key.kind = "oracleSet" ∨ e.key.kind = "batch") ∧ (st.objects.lookup e.key).isSome := by
+  obtain ⟨h1, h2, h3, _, _⟩ := genesis_carries_no_bridge_call_state
+  unfold exportsConfirm at h
+  cases hk : e.key with
+  | oracleSet n =>
+    simp only [hk, ObjKey.kind, h1] at h
+    simp only [Bool.and_eq_true] at h
+    refine ⟨.inl rfl, ?_⟩
+    have := h.2
+    simpa [objectScopeOf] using this
+  | batch t n =>
+    simp only [hk, ObjKey.kind, h2] at h
+    simp only [Bool.and_eq_true] at h
+    refine ⟨.inr rfl, ?_⟩
+    have := h.2
+    simpa [objectScopeOf] using this
+  | bridgeCall n =>
+    simp [hk, ObjKey.kind, h3] at h
+
+/-- A ROUND TRIP ONLY LOSES.  For every state whose registry has unique external addresses (`Props/C13.registry_bijective`):
+every confirmation stored after export → import was stored before, byte for byte and under the same oracle; it is an
+oracle-set or batch confirmation; and its object is still stored.  So everything sections 4–6 prove about stored
+confirmations holds of the imported ones -/
+theorem genesis_round_trip_only_loses (st : HState)
+    (huniq : ∀ e ∈ st.confirms, ∀ p ∈ st.oracles, p.2.external = e.external → p.1 = e.oracle) :
+    ∀ e' ∈ roundTripConfirms st, e' ∈ st.confirms ∧ e'.key.kind ≠ "bridgeCall" ∧ (st.objects.lookup e'.key).isSome := by
+  intro e' he'
+  simp only [roundTripConfirms, List.mem_flatMap, List.mem_filter, List.mem_map] at he'
+  obtain ⟨e, ⟨hmem, hexp⟩, o, ho, rfl⟩ := he'
+  obtain ⟨hkind, hlive⟩ := exportsConfirm_true st e hexp
+  have hlist : confirmListOf e.key.kind = "BatchConfirms" ∨ confirmListOf e.key.kind = "OracleSetConfirms" := by
+    rcases hkind with h | h <;> rw [h] <;> decide
+  have := genesis_import_keeps_owner _ hlist st.oracles e (huniq e hmem) o ho
+  subst this
+  refine ⟨hmem, ?_, hlive⟩
+  rcases hkind with h | h <;> simp [h]
+
+/-- … and it keeps every oracle-set / batch confirmation whose object is still stored and whose oracle is still registered
+with the external address it confirmed with -/
+theorem genesis_round_trip_keeps (st : HState) (e : Entry) (he : e ∈ st.confirms)
+    (hkind : e.key.kind = "oracleSet" ∨ e.key.kind = "batch") (hlive : (st.objects.lookup e.key).isSome)
+    (r : OracleRec) (hreg : (e.oracle, r) ∈ st.oracles) (hx : r.external = e.external) : e ∈ roundTripConfirms st := by
+  obtain ⟨h1, h2, _, _, _⟩ := genesis_carries_no_bridge_call_state
+  have hlist : confirmListOf e.key.kind = "BatchConfirms" ∨ confirmListOf e.key.kind = "OracleSetConfirms" := by
+    rcases hkind with h | h <;> rw [h] <;> decide
+  have hexp : exportsConfirm st e = true := by
+    unfold exportsConfirm
+    rcases hkind with h | h
+    · rw [h, h1]; simp [objectScopeOf, confirmListOf, hlive]; decide
+    · rw [h, h2]; simp [objectScopeOf, confirmListOf, hlive]; decide
+  simp only [roundTripConfirms, List.mem_flatMap, List.mem_filter, List.mem_map]
+  exact ⟨e, ⟨he, hexp⟩, e.oracle, genesis_import_files_under_owner _ hlist st.oracles e r hreg hx, rfl⟩
+
+/-- bridge-call confirmations do not survive a genesis export / import (availability: the oracles have to confirm again —
+an observation, not a violation: nothing is stored that was not verified) -/
+theorem genesis_round_trip_drops_bridge_call_confirms (st : HState)
+    (huniq : ∀ e ∈ st.confirms, ∀ p ∈ st.oracles, p.2.external = e.external → p.1 = e.oracle) (e : Entry)
+    (hk : e.key.kind = "bridgeCall") : e ∉ roundTripConfirms st :=
+  fun h => (genesis_round_trip_only_loses st huniq e h).2.1 hk
+
+end GenesisRoundTrip
+
 /-! ## non-vacuity -/
 
 /-- a well-formed, int64-safe oracle set with members exists -/
@@ -1234,6 +1316,17 @@ example : calTimeout ⟨5, 10, 100, 7000, 100, 0⟩ = some (timeoutFormula ⟨5,
   · exact normPower_gen 10 40 4294967295 maxUint32_const (by decide) (by decide)
 
 example : drawIds 3 none = [1, 2, 3] ∧ drawIds 2 (some (2 ^ 63 - 1)) = [2 ^ 63 - 1, 2 ^ 63] := by decide
+
+/-- a state with one confirmation of each kind on live objects, one on a cancelled batch: the round trip keeps the oracle-set
+and the live batch confirmation, drops the bridge-call one and the one left behind by the cancelled batch -/
+example :
+    let r : OracleRec := ⟨"X", "extA"⟩
+    let mk : ObjKey → Entry := fun k => ⟨k, 1, "X", "extA", [9], [1, 2, 3], r⟩
+    let st : HState := {
+      objects := [(.oracleSet 7, [1]), (.batch "t" 3, [2]), (.bridgeCall 5, [3])]
+      oracles := [(1, r)]
+      confirms := [mk (.oracleSet 7), mk (.batch "t" 3), mk (.bridgeCall 5), mk (.batch "t" 2)] }
+    (roundTripConfirms st).map (·.key) = [.oracleSet 7, .batch "t" 3] := by decide
 
 end R4
 
